@@ -253,7 +253,8 @@ def check_cases(ctx, cases):
             elif how == "ast":
                 arg = parse_expr(src)
             else:
-                text = f"def build(ds):\n    return ds.{op}(lambda e: {body_src})\n"
+                # the module has a global spelled like the lambda's parameter: the parameter must win at every depth
+                text = f"e = 2.718\n\n\ndef build(ds):\n    return ds.{op}(lambda e: {body_src})\n"
                 try:
                     mod = srcmod.make_module(text, "c10")
                 except SyntaxError:
@@ -313,6 +314,13 @@ def run(ctx):
         d = rng.choice([1, 2, 2, 3, 4])
         body = g.where_body(d) if op == "Where" and rng.random() < 0.8 else g.expr(d)
         cases.append((op, body, rng.choice(["str", "str", "ast", "callable"])))
+    # nested lambdas whose body uses the OUTER parameter as a bare name in a generically visited position
+    for _ in range(ctx.n(80, 3000)):
+        v = rng.choice(["j", "y", "value", "x"])
+        inner = g.expr(rng.choice([1, 2]))
+        use = rng.choice([f"({inner} + e)", f"f({inner}, e)", f"({inner}, e)", f"[e, {inner}][0]", f"(e if {inner} else 1)",
+                          f"({v} < e)", f"(-e)", f"g(k=e)", f"{{'a': e}}", f"f(lambda z: (z, {v}, e))"])
+        cases.append((rng.choice(["Select", "SelectMany", "Where"]), f"e.m(lambda {v}: {use})", rng.choice(["callable", "callable", "str", "ast"])))
     for i in range(0, len(cases), 300):
         typed_noise(rng)
         check_cases(ctx, cases[i : i + 300])
